@@ -119,8 +119,13 @@ def marker(repo: Repo, rep):
     pr = ds.methods.get("prune_new_files")
     pe = ds.methods.get("persist")
     en = ds.methods.get("_ensure_directory")
+    if en is None:
+        # the .gitignore may be written by any method of the storage class
+        for g in ds.methods.values():
+            if any(isinstance(c, ast.Call) and isinstance(c.func, ast.Attribute) and c.func.attr == "write_text" and c.args and isinstance(c.args[0], ast.Constant) for c in body_nodes(g.node)):
+                en = g
     if not (pr and pe and en):
-        rep.undecided("R-NEW-MARKER", "DiscStorage.prune_new_files/persist/_ensure_directory missing")
+        rep.undecided("R-NEW-MARKER", "DiscStorage.prune_new_files/persist/<gitignore writer> missing")
         return
     globs = [c.args[0].value for c in body_nodes(pr.node) if isinstance(c, ast.Call) and isinstance(c.func, ast.Attribute) and c.func.attr in ("glob", "rglob") and c.args and isinstance(c.args[0], ast.Constant)]
     if globs and all(g == want_glob for g in globs):
